@@ -18,6 +18,7 @@
 package main
 
 import (
+	"encoding/json"
 	"fmt"
 	"io"
 	"log"
@@ -821,6 +822,42 @@ func (e *eng) Exec(op []string) string {
 			})
 		})
 		return e.observe(st)
+	case "readerprobe": // readerprobe <seed>: a burst of messages with omitted fields through the real websocket reader
+		rr := common.NewRng(uint64(common.Atoi(op[1])))
+		var raw []string
+		n := rr.Range(4, 12)
+		for i := 0; i < n; i++ {
+			m := map[string]interface{}{"type": common.Pick(rr, "chat", "chat", "usermessage", "useraction", "ping")}
+			if rr.Intn(2) == 0 {
+				m["kind"] = common.Pick(rr, "", "me", "caption", "info", "kick")
+			}
+			if rr.Intn(2) == 0 {
+				m["id"] = fmt.Sprintf("i%d", rr.Intn(9))
+			}
+			if rr.Intn(2) == 0 {
+				m["source"] = common.Pick(rr, "c0", "c1")
+			}
+			if rr.Intn(2) == 0 {
+				m["username"] = common.Pick(rr, "alice", "bob", "root")
+			}
+			if rr.Intn(3) == 0 {
+				m["dest"] = common.Pick(rr, "c1", "c2")
+			}
+			if rr.Intn(3) == 0 {
+				m["noecho"] = true
+			}
+			if rr.Intn(2) == 0 {
+				m["value"] = common.Pick(rr, "hello", "x")
+			}
+			if rr.Intn(6) == 0 {
+				m["privileged"] = true
+			}
+			b, _ := json.Marshal(m)
+			raw = append(raw, string(b))
+		}
+		return rtpconn.VerifReaderProbe(raw)
+	case "slowmember": // slowmember <n>: n broadcasts to a member that drains its queue late
+		return rtpconn.VerifSlowMemberProbe(common.Atoi(op[1]))
 	case "killwriter": // the connection of a member fails: its writer exits, the client loop has not noticed yet
 		s := e.client(op[1])
 		if s == nil {
